@@ -30,18 +30,28 @@ structure Obs where
 
 def Tracker.obs (t : Tracker) : Obs := ⟨t.seq, t.total, t.payload, t.buf⟩
 
-/-- The required observations after the arrivals `h` of stream `s` with initial sequence `isn`
-    (as a decidable check, used verbatim as the run-time oracle on the implementation's output):
-    delivered = `s.take k`; `seq = isn + k` (mod 2^32); every buffered chunk starts strictly above `k`,
-    lies inside `s` and equals that slice of `s`; `total` = the bytes actually held. -/
-def specOK (s : Bytes) (isn : Nat) (h : List Seg) (o : Obs) : Bool :=
-  let k := frontier h s.length
+/-- the required observations when the delivery point is `k` -/
+def specOKat (s : Bytes) (isn : Nat) (k : Nat) (o : Obs) : Bool :=
   o.payload == s.take k &&
   o.seq == wrap32 (isn + k) &&
   o.total == (o.buf.map (fun c => c.2.length)).sum &&
   o.buf.all (fun c =>
     let a := k + sub32 c.1 o.seq      -- absolute start of the chunk
     decide (k < a) && decide (a + c.2.length ≤ s.length) && c.2 == (s.drop a).take c.2.length)
+
+/-- The required observations after the arrivals `h` of stream `s` with initial sequence `isn`
+    (as a decidable check, used verbatim as the run-time oracle on the implementation's output):
+    delivered = `s.take k`; `seq = isn + k` (mod 2^32); every buffered chunk starts strictly above `k`,
+    lies inside `s` and equals that slice of `s`; `total` = the bytes actually held. -/
+def specOK (s : Bytes) (isn : Nat) (h : List Seg) (o : Obs) : Bool :=
+  specOKat s isn (frontier h s.length) o
+
+/-- `frontier` computed incrementally: starting from a position `k` below which everything has arrived, walk
+    up while the position has arrived (`frontier_cons_advance`: this is how the run-time oracle follows the
+    frontier from one arrival to the next) -/
+def advanceFrom (h : List Seg) (n : Nat) : Nat → Nat → Nat
+  | 0, k => k
+  | fuel + 1, k => if k < n ∧ covered h k = true then advanceFrom h n fuel (k + 1) else k
 
 /-- `specOK` with the byte counter compared modulo 2^32 (the counter is a `uint32_t`; the two coincide whenever
     less than 4 GiB are buffered, in particular for every stream of at most 64 KiB) -/
